@@ -386,7 +386,7 @@ def struct_cases(draw, tier):
     return c
 
 
-def run_struct(kind, f, vs, data, paths, structured):
+def run_struct(kind, f, vs, data, paths, structured, sem=None, objio=None):
     from ..structs import Msg, PATHS
     dense = kind.startswith('ct')
     base = {'dt_off': 'dt_off', 'dt_on': 'dt_on', 'dt_on_past': 'dt_on', 'ct_off': 'ct_off', 'ct_on': 'ct_on'}[kind]
@@ -399,14 +399,19 @@ def run_struct(kind, f, vs, data, paths, structured):
     g = rn(f)
     text = dense_text(g, Q) if dense else 'out = ' + show(g)
     objs = sorted(set(paths[v][0] for v in vs))
+    if sem:
+        base = base[:2]           # interface-aware semantics: the combined classes
     try:
         if structured:
-            spec = build(base, text, [], parse=False)
+            spec = build(base, text, [], parse=False, semantics=sem)
             spec.import_module('vlib.structs', 'Msg')
             for o in objs:
                 spec.declare_var(o, 'Msg')
+                if objio and objio.get(o):
+                    spec.set_var_io_type(o, objio[o])
         else:
-            spec = build(base, text, list(vs), parse=False)
+            spec = build(base, text, list(vs), parse=False, semantics=sem,
+                         io_types={v: objio[paths[v][0]] for v in vs if objio and objio.get(paths[v][0])})
         spec.parse()
         if kind == 'dt_on_past':
             spec.pastify()
